@@ -1,0 +1,10 @@
+//go:build verif && (amd64 || arm64 || s390x || ppc64le) && !purego
+
+package verifhook
+
+import "github.com/emmansun/gmsm/internal/sm2ec"
+
+// field and scalar-field primitives of the internal/sm2ec assembly backend
+var P256Fel = sm2ec.VerifFel
+
+const HasP256Fel = true
